@@ -297,7 +297,7 @@ func addUniq(l *[]string, s string) {
 type lfAnalyzer struct {
 	w       *lfWorld
 	tracked map[*types.TypeName]*lfType
-	pseudo  map[*types.Func]int            // function -> index of the parameter that plays the receiver
+	pseudo  map[*types.Func]int              // function -> index of the parameter that plays the receiver
 	alias   map[*types.Func]map[int][]string // pseudo-method -> param index -> receiver fields bound at call sites
 }
 
